@@ -72,21 +72,58 @@ pub fn vector_set(vm: &mut Vm) -> Result<VCell, Error> {
     Ok(VCell::Void)
 }
 
+/// The optional [start, end) operands of a ranged vector procedure, validated against the
+/// vector's length.
+fn vector_range(
+    start: Option<usize>,
+    end: Option<usize>,
+    len: usize,
+    name: &str,
+) -> Result<(usize, usize), Error> {
+    let start = start.unwrap_or(0);
+    let end = end.unwrap_or(len);
+    if end > len {
+        return Err(InvalidVectorIndex(end, len));
+    }
+    if start > end {
+        return Err(InvalidSyntax(format!("{} requires start <= end", name)));
+    }
+    Ok((start, end))
+}
+
 pub fn vector_fill(vm: &mut Vm) -> Result<VCell, Error> {
-    pop_argc(vm, 2, Some(2), "vector-fill!")?;
+    let argc = pop_argc(vm, 2, Some(4), "vector-fill!")?;
+    let end = match argc {
+        4 => Some(pop_index(vm, "vector-fill!")?),
+        _ => None,
+    };
+    let start = match argc {
+        3 | 4 => Some(pop_index(vm, "vector-fill!")?),
+        _ => None,
+    };
     let value = vm.stack.pop()?.clone();
     let vector = pop_vector(vm)?;
-    for idx in 0..vector.len() {
+    let (start, end) = vector_range(start, end, vector.len(), "vector-fill!")?;
+    for idx in start..end {
         vector.put(idx, value.clone());
     }
     Ok(VCell::Void)
 }
 
 pub fn vector_to_list(vm: &mut Vm) -> Result<VCell, Error> {
-    pop_argc(vm, 1, Some(1), "vector->list")?;
+    let argc = pop_argc(vm, 1, Some(3), "vector->list")?;
+    let end = match argc {
+        3 => Some(pop_index(vm, "vector->list")?),
+        _ => None,
+    };
+    let start = match argc {
+        2 | 3 => Some(pop_index(vm, "vector->list")?),
+        _ => None,
+    };
     let vector = pop_vector(vm)?;
+    let (start, end) = vector_range(start, end, vector.len(), "vector->list")?;
     let mut tail = vm.heap.put(VCell::Nil);
-    for idx in (0..vector.len()).rev() {
+    for idx in (start..end).rev() {
         let car = vector.get(idx).unwrap();
         let car = vm.heap.put(car);
         tail = vm.heap.put(VCell::Pair(car.as_ptr()?, tail.as_ptr()?));
